@@ -16,11 +16,11 @@ OBLIGATIONS = [
 RC = ["iter_init:v_iter_init", "iter_next:v_iter_next", "iter_last:v_iter_last", "iter_prev:v_iter_prev", "iter_type:v_iter_type", "len:v_len", "get:v_get", "call_with:v_call"]
 def V(name, op, nmax=3, extra=(), **kw):
     us = ["Type_Scan.0:40", "Type_Scan.1:40", "strcmp.0:26", "v_len.0:8", "idxA.0:%d" % (nmax + 2), "idxB.0:%d" % (nmax + 2), "memcpy.0:8", "memcpy.1:40"]
-    return Ob("views.%s.n%d" % (name, nmax), "C11/views.c", defs=["OP=%s" % op, "NMAX=%d" % nmax] + list(extra), replace=["Iter.c"], replace_calls=RC,
+    return Ob("views.%s.n%d" % (name, nmax), "C11/views.c", defs=["OP=%s" % op, "NMAX=%d" % nmax] + list(extra), replace=["Iter.c"], replace_calls=kw.pop("replace_calls", RC),
               unwind=nmax + 4, unwindset=us, checks=["bounds", "pointer", "overflow"], tiers=("quick", "thorough"), object_bits=14, timeout=900, **kw)
-VIEWS = [V("slice.omit%d" % o, "OP_SLICE", extra=["OMIT=%d" % o]) for o in range(4)] + [V("zip", "OP_ZIP"), V("filter", "OP_FILTER"), V("map", "OP_MAP")]
+VIEWS = [V("slice.omit%d" % o, "OP_SLICE", extra=["OMIT=%d" % o]) for o in range(4)] + [V("slice_mem.omit%d" % o, "OP_SLICE", extra=["OMIT=%d" % o, "WITH_MEM"], replace_calls=RC + ["eq:v_eq"]) for o in (0, 3)] + [V("zip", "OP_ZIP"), V("filter", "OP_FILTER"), V("map", "OP_MAP")]
 OBLIGATIONS += VIEWS
-OBLIGATIONS += pick("C04", r"(tuple|list)\.iter\.")
+OBLIGATIONS += pick("C04", r"(tuple|list)\.iter(_dup)?\.")
 OBLIGATIONS += pick("C02", r"table\.iter\.") + pick("C03", r"tree\.iter\.") + pick("C04", r"array\.iter\.")
 LEVEL_TEXT = ("Bounded model checking of the iteration protocol: Range through the full real dispatch for all start/stop in [-B,B] and step in [-3,3]; "
               "container cursors (Array, Table, Tree) from arbitrary valid states in the C04/C02/C03 harnesses, whose obligations this check also runs.")
